@@ -114,6 +114,7 @@ def main(replay=None):
     thorough = run.tier == "thorough"
     problems = run.prove()
     himpl, drv, consts = SC.build(thorough)
+    SC.consts_problem(run, consts, problems)
     slice_len = consts["slice_length"]
     default_cap = consts["default_max_loop"]
 
